@@ -56,6 +56,13 @@ type Scenario struct {
 	// Ctl2: a second control task that only unsubscribes initial subscriptions the
 	// first one never touches, so that Unsub calls overlap each other
 	Ctl2 []CtlOp `json:"ctl2,omitempty"`
+	// EarlyClone: publishers that use WithOnly make their clone once, when they
+	// start, and keep using it - also after the subscription has been removed
+	EarlyClone bool `json:"early_clone,omitempty"`
+	// UnsubOnTimeout >= 1: the OnPubTimeout callback unsubscribes initial
+	// subscription UnsubOnTimeout-1 the first time it is called (no Sync variants
+	// in such a scenario: they call the callback with the lock held)
+	UnsubOnTimeout int `json:"unsub_on_timeout,omitempty"`
 }
 
 // H is the harness.
@@ -65,7 +72,7 @@ type H struct{}
 func (H) ID() string { return "C10" }
 
 // Faults implements core.Harness.
-func (H) Faults() core.FaultMenu { return core.FaultMenu{Stall: true, MaxSteps: 4000, PCTSteps: 150} }
+func (H) Faults() core.FaultMenu { return core.FaultMenu{Stall: true, MaxSteps: 30000, PCTSteps: 150} }
 
 // Decode implements core.Harness.
 func (H) Decode(b []byte) (any, error) {
@@ -77,7 +84,14 @@ func (H) Decode(b []byte) (any, error) {
 // Describe implements core.Harness.
 func (H) Describe(sc any) string {
 	s := sc.(*Scenario)
-	return fmt.Sprintf("timeout=%v onTimeout=%v defbuf=%d subs=%+v pubs=%+v ctl=%+v ctl2=%+v", time.Duration(s.Timeout), s.OnTimeout, s.DefBuf, s.Subs, s.Pubs, s.Ctl, s.Ctl2)
+	x := fmt.Sprintf("timeout=%v onTimeout=%v defbuf=%d subs=%+v pubs=%+v ctl=%+v ctl2=%+v", time.Duration(s.Timeout), s.OnTimeout, s.DefBuf, s.Subs, s.Pubs, s.Ctl, s.Ctl2)
+	if s.EarlyClone {
+		x += " [WithOnly clones are made once, up front, and outlive their subscription]"
+	}
+	if s.UnsubOnTimeout > 0 {
+		x += fmt.Sprintf(" [OnPubTimeout unsubscribes subscription %d]", s.UnsubOnTimeout-1)
+	}
+	return x
 }
 
 var variants = []string{"Pub", "PubSlice", "PubWait", "PubSliceWait", "PubSync", "PubSliceSync"}
@@ -110,10 +124,15 @@ func (H) Generate(r *simrt.Rand, tier string) any {
 		b := r.Intn(5) - 1
 		s.Subs = append(s.Subs, SubSpec{Buf: b, Recv: genRecv(r)})
 	}
-	withOnly := len(s.Subs) > 0 && r.Intn(6) == 0
+	withOnly := len(s.Subs) > 0 && r.Intn(5) == 0
 	only := -1
+	protect := -1 // a subscription the control tasks leave alone
 	if withOnly {
 		only = r.Intn(len(s.Subs))
+		s.EarlyClone = r.Intn(2) == 0
+		if !s.EarlyClone {
+			protect = only // a clone made at call time is not used after its channel's removal
+		}
 	}
 	maxCalls := 3
 	if tier == "thorough" && r.Intn(3) == 0 {
@@ -156,7 +175,7 @@ func (H) Generate(r *simrt.Rand, tier string) any {
 			}
 			op.Op = "unsub"
 			op.Target = r.Intn(live) // may name a subscription that was removed already
-			if op.Target == only {
+			if op.Target == protect {
 				op.Op = "unsubunknown"
 			}
 		case 6:
@@ -165,7 +184,7 @@ func (H) Generate(r *simrt.Rand, tier string) any {
 			op.Op = "unsubunknown"
 		default:
 			op.Op = "unsuball"
-			if withOnly {
+			if protect >= 0 {
 				op.Op = "unsubnil"
 			}
 		}
@@ -175,23 +194,53 @@ func (H) Generate(r *simrt.Rand, tier string) any {
 		// overlapping Unsub calls: the first control task keeps to the lower half of
 		// the initial subscriptions and never calls UnsubAll, the second takes the rest
 		half := len(s.Subs) / 2
+		subMode := r.Intn(3) == 0 // the second control task subscribes instead of unsubscribing
 		for i := range s.Ctl {
 			switch s.Ctl[i].Op {
 			case "unsub":
 				s.Ctl[i].Target %= half
-				if s.Ctl[i].Target == only {
+				if s.Ctl[i].Target == protect {
 					s.Ctl[i].Op = "unsubunknown"
 				}
-			case "unsuball", "sub", "subbuf":
+			case "sub", "subbuf":
 				s.Ctl[i].Op = "unsubnil"
+			case "unsuball":
+				if protect >= 0 || !subMode {
+					s.Ctl[i].Op = "unsubnil" // UnsubAll racing an Unsub of the same channel has no single right error value
+				}
 			}
 		}
 		for i := 0; i < 1+r.Intn(3); i++ {
+			if subMode {
+				// subscribing while the other control task may be inside UnsubAll
+				s.Ctl2 = append(s.Ctl2, CtlOp{Op: "subbuf", Buf: r.Intn(3), Delay: r.Intn(10), Recv: genRecv(r)})
+				continue
+			}
 			t := half + r.Intn(len(s.Subs)-half)
-			if t == only {
+			if t == protect {
 				continue
 			}
 			s.Ctl2 = append(s.Ctl2, CtlOp{Op: "unsub", Target: t, Delay: r.Intn(10)})
+		}
+	}
+	if s.Timeout > 0 && s.OnTimeout && len(s.Subs) > 0 && len(s.Ctl2) == 0 && r.Intn(4) == 0 {
+		sync := false
+		for _, p := range s.Pubs {
+			for _, c := range p {
+				if c.Variant == "PubSync" || c.Variant == "PubSliceSync" {
+					sync = true
+				}
+			}
+		}
+		if !sync {
+			// "unsubscribe whoever is too slow", from the callback
+			t := len(s.Subs) - 1
+			s.UnsubOnTimeout = t + 1
+			for i := range s.Ctl {
+				if (s.Ctl[i].Op == "unsub" && s.Ctl[i].Target == t) || s.Ctl[i].Op == "unsuball" {
+					s.Ctl[i].Op = "unsubnil"
+				}
+			}
 		}
 	}
 	return s
@@ -314,6 +363,7 @@ type subState struct {
 	closedSeen int64 // -1: receiver never saw the channel closed
 	stopped    bool
 	left       []int // values still in the channel buffer when the run ended
+	maybe      bool  // created while an UnsubAll was in progress: removed or not, either is right
 }
 
 type callRec struct {
@@ -339,17 +389,20 @@ const maxSubs = 16
 func token(p, c, e int) int { return 1000*(p+1) + 100*c + e + 1 }
 
 type run struct {
-	sc       *Scenario
-	ps       *chans.PubSub[int]
-	subs     [maxSubs]*subState
-	nsubs    int
-	calls    [][]callRec
-	ctl      []ctlRec
-	ctl2     []ctlRec
-	pubsDone []bool
-	ctlDone  [2]bool
-	mu       sync.Mutex // real mutex: OnPubTimeout is invoked from several library goroutines
-	touts    []delivery
+	sc         *Scenario
+	ps         *chans.PubSub[int]
+	subs       [maxSubs]*subState
+	nsubs      int
+	calls      [][]callRec
+	ctl        []ctlRec
+	ctl2       []ctlRec
+	pubsDone   []bool
+	ctlDone    [2]bool
+	cbErr      error
+	tabMu      sync.Mutex // real mutex around the subscription table (two control tasks add to it)
+	unsubAllIn int64      // >0 while an UnsubAll call is in progress (its invocation stamp)
+	mu         sync.Mutex // real mutex: OnPubTimeout is invoked from several library goroutines
+	touts      []delivery
 }
 
 func (r *run) receiver(st *subState) {
@@ -386,8 +439,13 @@ func (r *run) addSub(buf int, spec Recv) *subState {
 		st.ch = r.ps.SubBuf(buf)
 	}
 	st.createdRet = simrt.Stamp()
+	r.tabMu.Lock()
+	if r.unsubAllIn > 0 {
+		st.maybe = true
+	}
 	r.subs[r.nsubs] = st
 	r.nsubs++
+	r.tabMu.Unlock()
 	if spec.Mode == "slow" {
 		simrt.Count("fault.receiver_slow", 1)
 	}
@@ -400,11 +458,24 @@ func (H) Execute(scAny any, cfg simrt.Config, st *core.Stats) (*simrt.Outcome, *
 	sc := scAny.(*Scenario)
 	r := &run{sc: sc, ps: &chans.PubSub[int]{PubTimeoutAfter: time.Duration(sc.Timeout), DefaultBuffer: sc.DefBuf}}
 	if sc.OnTimeout {
+		unsubbed := false
 		r.ps.OnPubTimeout = func(ev int) {
 			now := simrt.NowNanos()
 			r.mu.Lock()
 			r.touts = append(r.touts, delivery{ev, now})
+			first := sc.UnsubOnTimeout > 0 && !unsubbed
+			unsubbed = true
 			r.mu.Unlock()
+			if first {
+				// unsubscribe the slow one, from the callback
+				st := r.subs[sc.UnsubOnTimeout-1]
+				simrt.Count("fault.unsub_from_callback", 1)
+				st.removedInv = simrt.Stamp()
+				if err := r.ps.Unsub(st.ch); err != nil {
+					r.cbErr = err
+				}
+				st.removedRet = simrt.Stamp()
+			}
 		}
 	}
 	r.calls = make([][]callRec, len(sc.Pubs))
@@ -418,6 +489,14 @@ func (H) Execute(scAny any, cfg simrt.Config, st *core.Stats) (*simrt.Outcome, *
 		for p := range sc.Pubs {
 			p := p
 			simrt.Go(func() {
+				var early *chans.PubSub[int]
+				if sc.EarlyClone {
+					for _, pc := range sc.Pubs[p] {
+						if pc.Only >= 0 && early == nil {
+							early = r.ps.WithOnly(r.subs[pc.Only].ch)
+						}
+					}
+				}
 				for ci, pc := range sc.Pubs[p] {
 					for d := 0; d <= pc.Delay; d++ {
 						simrt.Yield()
@@ -432,7 +511,11 @@ func (H) Execute(scAny any, cfg simrt.Config, st *core.Stats) (*simrt.Outcome, *
 					cr.t0 = simrt.NowNanos()
 					cr.inv = simrt.Stamp()
 					if pc.Only >= 0 {
-						ps = ps.WithOnly(r.subs[pc.Only].ch)
+						if early != nil {
+							ps = early
+						} else {
+							ps = ps.WithOnly(r.subs[pc.Only].ch)
+						}
 					}
 					switch pc.Variant {
 					case "Pub":
@@ -473,6 +556,12 @@ func (H) Execute(scAny any, cfg simrt.Config, st *core.Stats) (*simrt.Outcome, *
 					r.ctl2 = append(r.ctl2, ctlRec{op: op})
 					cr := &r.ctl2[len(r.ctl2)-1]
 					cr.inv = simrt.Stamp()
+					if op.Op == "subbuf" {
+						r.addSub(op.Buf, op.Recv)
+						cr.ret = simrt.Stamp()
+						cr.done = true
+						continue
+					}
 					st := r.subs[op.Target]
 					if st.removedInv >= 0 {
 						cr.want = chans.ErrAlreadyUnsubscribed
@@ -507,9 +596,11 @@ func (H) Execute(scAny any, cfg simrt.Config, st *core.Stats) (*simrt.Outcome, *
 						r.addSub(op.Buf, op.Recv)
 					case "unsub":
 						t := op.Target
+						r.tabMu.Lock()
 						if t >= r.nsubs {
 							t = r.nsubs - 1
 						}
+						r.tabMu.Unlock()
 						if t < 0 {
 							cr.want = chans.ErrAlreadyUnsubscribed
 							cr.err = r.ps.Unsub(make(chan int))
@@ -533,18 +624,25 @@ func (H) Execute(scAny any, cfg simrt.Config, st *core.Stats) (*simrt.Outcome, *
 						cr.want = chans.ErrAlreadyUnsubscribed
 						cr.err = r.ps.Unsub(make(chan int))
 					case "unsuball":
-						for i := 0; i < r.nsubs; i++ {
+						r.tabMu.Lock()
+						n0 := r.nsubs
+						r.unsubAllIn = cr.inv
+						for i := 0; i < n0; i++ {
 							if r.subs[i].removedInv < 0 {
 								r.subs[i].removedInv = cr.inv
 							}
 						}
+						r.tabMu.Unlock()
 						cr.err = r.ps.UnsubAll()
 						stamp := simrt.Stamp()
-						for i := 0; i < r.nsubs; i++ {
+						r.tabMu.Lock()
+						r.unsubAllIn = 0
+						for i := 0; i < n0; i++ {
 							if r.subs[i].removedRet < 0 {
 								r.subs[i].removedRet = stamp
 							}
 						}
+						r.tabMu.Unlock()
 					}
 					cr.ret = simrt.Stamp()
 					cr.done = true
@@ -589,6 +687,11 @@ func (r *run) check(out *simrt.Outcome, st *core.Stats) *core.Violation {
 	// with a positive PubTimeoutAfter every hand-off ends within the timeout, so no
 	// publish, subscribe or unsubscribe call can be blocked when the run has ended
 	if sc.Timeout > 0 {
+		for _, a := range out.Alive {
+			if strings.HasPrefix(a.SpawnSite, "chans.") {
+				return &core.Violation{Signature: "blocked-despite-timeout", Detail: fmt.Sprintf("a sender goroutine started by %s never finished although PubTimeoutAfter is %v: %s", a.SpawnSite, time.Duration(sc.Timeout), strings.Join(out.StuckTasks, ", "))}
+			}
+		}
 		for p, d := range r.pubsDone {
 			if !d {
 				return &core.Violation{Signature: "blocked-despite-timeout", Detail: fmt.Sprintf("publisher %d never finished although PubTimeoutAfter is %v: %s", p, time.Duration(sc.Timeout), strings.Join(out.StuckTasks, ", "))}
@@ -599,6 +702,9 @@ func (r *run) check(out *simrt.Outcome, st *core.Stats) *core.Violation {
 				return &core.Violation{Signature: "blocked-despite-timeout", Detail: fmt.Sprintf("control task %d (Sub/Unsub) never finished although PubTimeoutAfter is %v: %s", k, time.Duration(sc.Timeout), strings.Join(out.StuckTasks, ", "))}
 			}
 		}
+	}
+	if r.cbErr != nil {
+		return &core.Violation{Signature: "wrong-error:unsub-from-callback", Detail: fmt.Sprintf("Unsub of a live subscription, called from OnPubTimeout, returned %v", r.cbErr)}
 	}
 	// errors
 	for _, c := range append(append([]ctlRec(nil), r.ctl...), r.ctl2...) {
@@ -658,6 +764,9 @@ func (r *run) check(out *simrt.Outcome, st *core.Stats) *core.Violation {
 				}
 				lastSync[c.pub] = d.tok
 			}
+		}
+		if s.maybe {
+			continue // created while UnsubAll was running: closed or open are both right
 		}
 		if s.closedSeen >= 0 && (s.removedInv < 0 || s.closedSeen < s.removedInv) {
 			return &core.Violation{Signature: "closed-without-unsub", Detail: fmt.Sprintf("subscription %d was observed closed at step %d but was not removed (removal invoked at %d)", si, s.closedSeen, s.removedInv)}
@@ -733,6 +842,9 @@ func (r *run) check(out *simrt.Outcome, st *core.Stats) *core.Violation {
 						upper++
 					}
 					wellBehaved := s.spec.Mode == "good" || s.spec.Mode == "slow"
+					if s.maybe {
+						continue // may or may not have survived the UnsubAll it was created under
+					}
 					if throughout && wellBehaved {
 						lower++
 						if sc.Timeout == 0 && !got {
